@@ -140,7 +140,8 @@ def tryParseType (fixed : Bool) (fuel : Nat) (p : P) : Except PErr (Option FType
     pure (some (if lw = [101,110,117,109] then .enum vals else .set vals), p2)
   else if lw = [115,105,109,112,108,101] ∨ lw = [111,98,106,101,99,116] ∨ lw = [116,97,98,108,101] then
     let (dn, p2) ← parseDeclName cc (take p1).2
-    pure (some (.decl lw dn), p2)
+    -- as the code: a field of type `table …` is recorded as `DeclarationType::Object`
+    pure (some (.decl (if lw = [116,97,98,108,101] then [111,98,106,101,99,116] else lw) dn), p2)
   else pure (none, p1)
 
 structure Field where
